@@ -920,7 +920,7 @@ impl TypeChecker {
                 // that is still open is settled on the field itself: a copy would take on a purity
                 // of its own and the field would accept the other one afterwards.
                 let field_ty = match self.find_type(field_ty) {
-                    Type::Function(_, _, Purity::Undefined) => field_ty,
+                    Type::Function(_, _, _) if self.has_open_purity(field_ty) => field_ty,
                     Type::Function(_, _, _) => self.copy(field_ty),
                     _ => field_ty,
                 };
@@ -2061,6 +2061,30 @@ impl TypeChecker {
             }
         }
         Ok(())
+    }
+
+    /// Is there a function type in here - the type itself, what it takes, what it returns -
+    /// whose purity is not settled yet?
+    fn has_open_purity(&mut self, ty: TyID) -> bool {
+        let mut todo = vec![ty];
+        let mut seen = BTreeSet::new();
+        while let Some(ty) = todo.pop() {
+            let ty = self.find(ty);
+            if !seen.insert(ty) {
+                continue;
+            }
+            match self.find_type(ty) {
+                Type::Function(_, _, Purity::Undefined) => return true,
+                Type::Function(args, ret, _) => {
+                    todo.extend(args);
+                    todo.push(ret);
+                }
+                Type::Tuple(tys) => todo.extend(tys),
+                Type::List(ty) => todo.push(ty),
+                _ => {}
+            }
+        }
+        false
     }
 
     fn add_constraint(&mut self, a: TyID, span: Span, constraint: Constraint) {
